@@ -262,12 +262,52 @@ def compare_groups(cases):
             if tree != ref or sorted(c.result.after_dirs) != sorted(base.after_dirs):
                 if ref_fix is None:
                     ref_fix = fixpoint_tree(base)
-                if fixpoint_tree(c.result) != ref_fix:
+                if fixpoint_tree(c.result) == ref_fix:
+                    c.result.world.tag += " (equal after re-running to idle)"
+                elif presentations_compatible(base, c.result):
+                    c.result.world.tag += " (compatible outcome sets)"
+                else:
                     c.fails = c.fails + ["c17-tree-differs"]
                     c.base = base
-                else:
-                    c.result.world.tag += " (equal after re-running to idle)"
     return cases
+
+def recovered(world, files):
+    """positions of the export tree that hold the torrent's byte: {(path, index)}"""
+    out = set()
+    for g in world.gts:
+        for f in g.files:
+            if f.pad:
+                continue
+            p = tuple(g.target(world.export, f))
+            have = files.get(p)
+            if have is None:
+                continue
+            out |= {(p, k) for k in range(min(len(have), f.length)) if have[k] == f.content[k]}
+            if len(have) == f.length:
+                out.add((p, "length"))
+    return out
+
+def presentations_compatible(base, other, rounds=5):
+    """Two presentations of one world whose idle trees differ. Legitimate reasons: (1) the presentation ADDS candidates
+    (the export directory or an enclosing directory among the scan directories: `C17_export_as_scan_differs`) — then
+    the richer one must have recovered at least what the base has; (2) the result is not determined by the data: a
+    piece whose only source is another torrent's export image that the same run rewrites is recovered or not, for
+    good, depending on the evaluation order (hash-map iteration; C02: "and remains so during the run"). Both are
+    told from a real dependence on the presentation by running each presentation again from the start, a few times,
+    and comparing the SETS of idle trees: equal presentations must share an outcome, richer ones must dominate one."""
+    superset = other.world.tag.startswith(("export directory among", "enclosing directory also"))
+    def idle(world):
+        d, f = fixpoint_tree(W.execute(world))
+        return (tuple(d), tuple(sorted(f.items())))
+    bs, os_ = {idle(base.world)}, {idle(other.world)}
+    for _ in range(rounds):
+        if superset:
+            if any(recovered(base.world, dict(b[1])) <= recovered(other.world, dict(o[1])) for b in bs for o in os_):
+                return True
+        elif bs & os_:
+            return True
+        bs.add(idle(base.world)); os_.add(idle(other.world))
+    return False
 
 EXTRA_MODULES = {"C14": ["TB.Props.C14run"], "C03": ["TB.Props.C03frame"], "C17": ["TB.Props.C17run", "TB.Props.C17scan", "TB.Props.TopLevel"],
                  "C01": ["TB.Props.C01bytes", "TB.Props.TopLevel"],
@@ -527,6 +567,20 @@ def run_exec_only(worlds):
         cases.append(c)
     return cases
 
+def same_outcome_set(h, r, rounds=6):
+    """Even a single-threaded run is not a function of its arguments: the order in which pieces are evaluated depends on
+    hash-map iteration (seeded per process), and when a piece's only source is another torrent's export image that the
+    same run rewrites, whether it is recovered depends on that order — for good (C02 says "and remains so during the
+    run"). The library under the harness and the command-line binary are then compared as SETS of outcomes: they
+    agree when some tree the one produces is a tree the other produces."""
+    key = lambda x: (tuple(sorted((p, v[0]) for p, v in x.after_files.items())), tuple(sorted(x.after_dirs)))
+    hs, cs = {key(h)}, {key(r)}
+    for _ in range(rounds):
+        if hs & cs:
+            return True
+        hs.add(key(W.execute(h.world))); cs.add(key(W.execute_cli(h.world)))
+    return bool(hs & cs)
+
 def run_with_cli(worlds, ncli):
     """the usual run cases, plus the real command-line binary on the first `ncli` single-threaded worlds: its progress
     lines, its handling of unloadable torrents and bad arguments and the tree it leaves are compared with the
@@ -558,7 +612,7 @@ def run_with_cli(worlds, ncli):
         tree_h = {p: v[0] for p, v in h.after_files.items()}
         if tree_c != tree_h or sorted(r.after_dirs) != sorted(h.after_dirs):
             r.world = h.world
-            if fixpoint_tree(h) != fixpoint_tree(r):
+            if fixpoint_tree(h) != fixpoint_tree(r) and not same_outcome_set(h, r):
                 fails.append("c16-cli-tree")
         k = C.Case(c.line + " CLI", "cli rc=%s lines=%d unable=%d" % (r.rc, len(r.counters), r.unable),
                    ("agree " if not fails else "DISAGREE ") + ("prop-ok" if not fails else "PROPFAIL:" + ",".join(fails)) + " cli", tag="cli:" + (h.world.tag or "world"))
